@@ -28,8 +28,10 @@ def partitions(tier):
     q = tier == "quick"
     parts = []
     for v in VERSIONS:
-        if not q or v in ("1.4", "2.2"):
-            for cmd in range(5):
+        for cmd in range(5):
+            if q and v not in ("1.4", "2.2") and cmd != 3:
+                continue  # thorough: full grid; quick: the internal command on every version (its id-request exemption is a per-module constant)
+            if True:
                 parts.append({"name": "core-%s-cmd%d" % (v, cmd), "fn": "sym_core", "version": v, "cmd": cmd,
                               "budget": 400 if q else 1500, "cost": 3})
         for j in range(5):
